@@ -210,10 +210,15 @@ func (vc *VC) doCall(c *ssa.CallCommon, v ssa.Value, st *State, pos token.Pos) *
 	if vc.fc != nil && vc.inlineDepth == 0 {
 		vc.hintsAtCall("before:", key, fn, st)
 		for i, cp := range vc.fc.CallPres {
-			if !strings.Contains(key, cp.Callee) && !(fn != nil && strings.Contains(fn.String(), cp.Callee)) {
+			isDyn := cp.Callee == "dynamic" && fn == nil && !c.IsInvoke() && (key == "" || strings.Contains(key, "functype:"))
+			if !isDyn && (cp.Callee == "dynamic" || (!strings.Contains(key, cp.Callee) && !(fn != nil && strings.Contains(fn.String(), cp.Callee)))) {
 				continue
 			}
 			env := vc.newEnv(st, vc.entrySt)
+			if isDyn {
+				// callpre dynamic: the called function value is visible as "callee"
+				env.vars["callee"] = vc.val(c.Value)
+			}
 			for j, a := range args {
 				env.vars[fmt.Sprintf("arg%d", j)] = a
 			}
@@ -368,6 +373,9 @@ func (vc *VC) applyContract(fc *FuncContract, fn *ssa.Function, c *ssa.CallCommo
 			label = fmt.Sprintf("requires%d", i)
 		}
 		vc.oblige("pre", fc.Name+":"+label, vc.trBool(r.E, env), pos)
+	}
+	if vc.preOnly {
+		return nil
 	}
 	// frame
 	vc.applyModifies(fc, env, st)
